@@ -85,7 +85,8 @@ class Contract(object):
     def __init__(self, qual, params, requires=None, ensures=None, raises=None, loops=None,
                  result=None, modifies=(), mode='int', width=40, prop=(), name=None, doc='',
                  exc_ensures=None, apply_fn=None, inline_in_callers=False, setup=None,
-                 opts=None, pyspec=None, gen=None, applies_when=None, pure=True, cover=True):
+                 opts=None, pyspec=None, gen=None, applies_when=None, pure=True, cover=True, lemmas=None):
+        self.lemmas = list(lemmas or [])   # [(schema(*ints) -> VBool, args(ns) -> ints)]: see arith_lemma()
         self.qual = qual
         self.params = params            # ordered dict name -> T
         self.requires = requires
@@ -148,6 +149,9 @@ class Contract(object):
             r = self.requires(ns_pre)
             st.assume(truthy(_lift(r)))
             pre.assume(truthy(_lift(r)))
+        for k, (schema, args) in enumerate(self.lemmas):
+            inst = arith_lemma(ex, pre, 'arith-lemma-%d' % (k + 1), schema, args(ns_pre))
+            st.assume(inst)
         results = []
         meta = {'qual': self.qual, 'sha256': fs.sha256, 'contract': self.name}
         # vacuity: requires must be satisfiable
@@ -278,6 +282,19 @@ class Contract(object):
                 v = st.heap[(o.oid, f)]
                 if isinstance(v, VSeq) and v.elem == 'byte':
                     st.assume(isb(v.t))
+
+
+def arith_lemma(ex, st, name, schema, terms):
+    """A fact of pure integer arithmetic used as a hint.  `schema(*ints) -> VBool` is stated over fresh
+    integer variables and becomes an obligation with an EMPTY path condition (so it is proved for all
+    integers, by plain z3 without the sequence axioms); only then is its instance at `terms` assumed in
+    `st`.  Returns the instance (z3 Bool)."""
+    fresh = [VInt(z3.Int(fresh_name('lem'))) for _ in terms]
+    goal = truthy(_lift(schema(*fresh)))
+    ex.obligations.append(Obligation(name, [], goal, 'arith-lemma', [], None))
+    inst = truthy(_lift(schema(*[_lift(t) for t in terms])))
+    st.assume(inst)
+    return inst
 
 
 def _check_sat(pc):
@@ -629,6 +646,10 @@ class ScenarioAPI(object):
 
     def unreachable(self, st, name):
         self.ex.oblige(st, name, z3.BoolVal(False), kind='lemma-unreachable')
+
+    def arith_lemma(self, st, name, schema, *terms):
+        """prove schema for all integers (empty context), then assume its instance at terms in st"""
+        return arith_lemma(self.ex, st, name, schema, terms)
 
 
 def scenario(name, prop, doc='', opts=None):
